@@ -2667,6 +2667,11 @@ func (p *Parser) evaluateSubscript(ctx context) (Expression, error) {
 	}
 
 	if !isSlice {
+		// A single index (s[i]) has no separate end-index. Leaving it unset makes
+		// sure the index expression is only evaluated once.
+		if !gotRange {
+			endIndex = nil
+		}
 		return StringSubscript{
 			value:      value,
 			startIndex: startIndex,
